@@ -579,6 +579,19 @@ def scenarios_c13(tier):
     return out
 
 
+def scenarios_c10(tier):
+    """C10 explores what C13 explores (buffered, lock order) plus programs in which the per-file lock does not exist yet when
+    the threads start: every thread opens its own object; a third thread queues behind them."""
+    out = scenarios_c13(tier)
+    for cls in (("JSONDict", "BufferedJSONDict") if tier != "quick" else ("JSONDict",)):
+        out.append({"name": f"C10:{cls}:three constructors set_x|set_y|set_a", "cls": cls, "limit": 500 if tier == "quick" else 2500,
+                    "threads": [dict(thread_spec("T1", "set_x", "t1", file=1), construct=True), dict(thread_spec("T2", "set_y", "t2", file=1), construct=True),
+                                dict(thread_spec("T3", "set_a", "t3", file=1), construct=True)]})
+        out.append({"name": f"C10:{cls}:two constructors update|del_a", "cls": cls, "limit": 400 if tier == "quick" else 1500,
+                    "threads": [dict(thread_spec("T1", "update", "t1", file=1), construct=True), dict(thread_spec("T2", "del_a", "t2", file=1), construct=True)]})
+    return out
+
+
 def scenarios_c14(tier):
     """Readers next to writers.  same=True is the known finding D18 (shared object)."""
     out = []
@@ -675,7 +688,7 @@ if __name__ == "__main__":
     else:
         which = sys.argv[1] if len(sys.argv) > 1 else "c09"
         tier = sys.argv[2] if len(sys.argv) > 2 else "quick"
-        specs = {"c09": scenarios_c09, "c13": scenarios_c13, "c14": scenarios_c14, "d18": scenarios_d18, "c11": scenarios_c11}[which](tier)
+        specs = {"c09": scenarios_c09, "c13": scenarios_c13, "c14": scenarios_c14, "d18": scenarios_d18, "c11": scenarios_c11, "c10": scenarios_c10}[which](tier)
         t = time.time()
         rs = run_scenarios(specs, tier, 1)
         s = summarise(which, rs, which)
